@@ -13,7 +13,8 @@ RULE = ("families: bsi/argsort_k/find_pbest_id/minmax exhaustively over lattice 
         "<=5 thorough) compiled vs mirror vs Coq model; random_sample/weighted/tournament/sattolo/randint "
         "with ALL outcomes of the random draws enumerated in script mode (u on a 1/8 or 1/16 grid plus "
         "0, 2^-53, 1-2^-53) vs model; seeded compiled runs vs log-mode mirror (same stream) vs model. "
-        "A case is non-trivial/distinct by (family, input, draws).")
+        "Tournament winners additionally over fitness values from {-inf, finfo.min, -2, 1} (implementation against the statement: the "
+        "rational model has no infinities). A case is non-trivial/distinct by (family, input, draws).")
 ASSUMPTIONS = ["primitives return values in their documented range", "weights/fitness finite (no NaN)",
                "rejection loops terminate (partial correctness)"]
 TRUSTED = ["models: coq/theories/RandomPrims.v; check functions coq/theories/C11Check.v"]
